@@ -630,11 +630,23 @@ func (p *Parser) parseSwitch() ast.Node {
 			isDefaultCase = true
 		} else if p.curTokenIs(token.CASE) {
 			p.nextToken() // move to the token following "case"
-			caseExprs = append(caseExprs, p.parseExpression(LOWEST))
+			caseExpr := p.parseExpression(LOWEST)
+			if caseExpr == nil {
+				p.setTokenError(p.curToken, "invalid case expression")
+				return nil
+			}
+			caseExprs = append(caseExprs, caseExpr)
 			for p.peekTokenIs(token.COMMA) {
 				p.nextToken() // move to the comma
 				p.nextToken() // move to the following expression
-				caseExprs = append(caseExprs, p.parseExpression(LOWEST))
+				// Stop on an expression that fails to parse: once an error is
+				// set the parser no longer advances, so this loop would never end.
+				caseExpr := p.parseExpression(LOWEST)
+				if caseExpr == nil {
+					p.setTokenError(p.curToken, "invalid case expression")
+					return nil
+				}
+				caseExprs = append(caseExprs, caseExpr)
 			}
 		} else {
 			p.setTokenError(p.curToken, "expected 'case' or 'default' (got %s)", p.curToken.Literal)
